@@ -38,6 +38,7 @@
 #include "util/strutil.h"
 #include "util/thread_pool.h"
 #include "util/vector.h"
+#include "util/verif.h"
 
 #include "builder.h"
 #include "db_impl.h"
@@ -1637,6 +1638,8 @@ ldb_background_call(void *ptr) {
 
   assert(db->background_compaction_scheduled);
 
+  LDB_VERIF_POINT(LDB_VP_BG_BEGIN, db, 0, 0);
+
   if (ldb_atomic_load(&db->shutting_down, ldb_order_acquire)) {
     /* No more background work when shutting down. */
   } else if (db->bg_error != LDB_OK) {
@@ -1650,6 +1653,8 @@ ldb_background_call(void *ptr) {
   /* Previous compaction may have produced too many files in a level,
      so reschedule another compaction if needed. */
   ldb_maybe_schedule_compaction(db);
+
+  LDB_VERIF_POINT(LDB_VP_BG_END, db, db->background_compaction_scheduled, 0);
 
   ldb_cond_broadcast(&db->background_work_finished_signal);
 
@@ -1676,6 +1681,8 @@ ldb_internal_iterator(ldb_t *db, const ldb_readopt_t *options,
   ldb_mutex_lock(&db->mutex);
 
   *latest_snapshot = db->versions->last_sequence;
+
+  LDB_VERIF_POINT(LDB_VP_ITER_SEQ, db, *latest_snapshot, 0);
 
   /* Collect together all needed child iterators. */
   ldb_vector_push(&list, ldb_memiter_create(db->mem));
@@ -2094,6 +2101,8 @@ ldb_get(ldb_t *db, const ldb_slice_t *key,
   else
     snapshot = db->versions->last_sequence;
 
+  LDB_VERIF_POINT(LDB_VP_GET_SEQ, db, snapshot, options->snapshot != NULL);
+
   mem = db->mem;
   imm = db->imm;
   current = db->versions->current;
@@ -2249,6 +2258,9 @@ ldb_write(ldb_t *db, ldb_batch_t *updates, const ldb_writeopt_t *options) {
           sync_error = 1;
       }
 
+      LDB_VERIF_POINT(LDB_VP_WRITE_LOGGED, db, last_sequence -
+                      ldb_batch_count(write_batch) + 1, last_sequence);
+
       if (rc == LDB_OK)
         rc = ldb_batch_insert_into(write_batch, db->mem);
 
@@ -2268,6 +2280,8 @@ ldb_write(ldb_t *db, ldb_batch_t *updates, const ldb_writeopt_t *options) {
     assert(last_sequence >= db->versions->last_sequence);
 
     db->versions->last_sequence = last_sequence;
+
+    LDB_VERIF_POINT(LDB_VP_WRITE_COMMIT, db, rc, last_sequence);
   }
 
   for (;;) {
@@ -2302,6 +2316,8 @@ ldb_snapshot(ldb_t *db) {
 
   seq = db->versions->last_sequence;
   snap = ldb_snaplist_new(&db->snapshots, seq);
+
+  LDB_VERIF_POINT(LDB_VP_SNAP_SEQ, db, seq, 0);
 
   ldb_mutex_unlock(&db->mutex);
 
@@ -2809,3 +2825,46 @@ ldb_record_read_sample(ldb_t *db, const ldb_slice_t *key) {
 
   ldb_mutex_unlock(&db->mutex);
 }
+
+#ifdef LDB_VERIF
+/*
+ * Verification hooks (compiled only with -DLDB_VERIF)
+ */
+
+void (*ldb_verif_point_cb)(int id, const void *p, uint64_t a, uint64_t b) = NULL;
+
+void
+ldb_verif_wait_idle(ldb_t *db);
+
+void
+ldb_verif_counters(ldb_t *db, uint64_t *out);
+
+/* Wait until no background work is scheduled or running. */
+void
+ldb_verif_wait_idle(ldb_t *db) {
+  ldb_mutex_lock(&db->mutex);
+
+  while (db->background_compaction_scheduled && db->bg_error == LDB_OK)
+    ldb_cond_wait(&db->background_work_finished_signal, &db->mutex);
+
+  ldb_mutex_unlock(&db->mutex);
+}
+
+/* out[8]: log number, prev log number, next file number, last sequence,
+   manifest file number, current log file number, bg_error, has imm. */
+void
+ldb_verif_counters(ldb_t *db, uint64_t *out) {
+  ldb_mutex_lock(&db->mutex);
+
+  out[0] = db->versions->log_number;
+  out[1] = db->versions->prev_log_number;
+  out[2] = db->versions->next_file_number;
+  out[3] = db->versions->last_sequence;
+  out[4] = db->versions->manifest_file_number;
+  out[5] = db->logfile_number;
+  out[6] = (uint64_t)db->bg_error;
+  out[7] = (db->imm != NULL);
+
+  ldb_mutex_unlock(&db->mutex);
+}
+#endif /* LDB_VERIF */
